@@ -339,6 +339,9 @@ class ExprMixin:
         raise Unsupported("{**x} of opaque value")
 
     def e_Set(self, node, env, path, merge):
+        if any(isinstance(e, ast.Starred) for e in node.elts):
+            # {*xs, ...}: only membership is modelled (a sequence of the same elements; hashing of elements not modelled)
+            return self._display(node.elts, env, path, merge, "list")
         return {self.eval(e, env, path, merge) for e in node.elts}
 
     # ------------------------------------------------------------------ comprehensions
